@@ -40,7 +40,18 @@ void BlockingWorld::attach(KSI_CTX *ctx) {
 
 std::string BlockingWorld::make_reply(ServedRequest &sr) {
 	const EndpointCfg &cfg = sr.is_ext ? ext : aggr;
-	std::string bytes = sr.is_ext ? world.ext_reply(sr.info, cfg, env.behav, env.subseed, sr.meta) : world.aggr_reply(sr.info, cfg, env.behav, env.subseed, sr.meta);
+	std::string bytes;
+	if (sr.info.has_conf_req && !sr.info.has_req && cfg.pdu_ver == 2) {
+		// a configuration request: the reply is a configuration PDU, sealed with the behaviour's MAC / framing deviation (if any)
+		static const int seal_only[] = {B_HONEST, B_HONEST, B_BAD_MAC, B_OTHER_KEY, B_OTHER_ALG, B_NO_MAC, B_ERROR_PDU, B_OTHER_VER, B_NO_HEADER, B_GARBAGE_PDU};
+		int sb = env.behav == B_HONEST ? B_HONEST : seal_only[(size_t)env.behav % 10];
+		ConfVals cv; uint64_t s2 = env.subseed;
+		if (!sr.is_ext) { cv.max_level = 1 + s2 % 20; cv.aggr_period = 100 + s2 % 5000; cv.max_requests = 1 + s2 % 1000; if (s2 & 1) { cv.has_alg = true; cv.aggr_alg = 1 + (s2 >> 1) % 2 * 4; } }
+		else { cv.max_requests = 1 + s2 % 1000; cv.cal_first = 1400000000 + s2 % 1000; cv.cal_last = world.head(); }
+		sr.meta = ReplyMeta(); sr.meta.behav = sb; sr.meta.honest = sb == B_HONEST;
+		bytes = sb == B_ERROR_PDU ? world.error_pdu(cfg, 0x0101, "ref error pdu") : sb == B_GARBAGE_PDU ? Tlv::nest(0x0777, {Tlv::u64(0x01, s2)}).enc() : world.seal(cfg, true, {conf_tlv(0x04, cv, cfg.extender)}, sb, s2);
+		K.count("reply.configuration");
+	} else bytes = sr.is_ext ? world.ext_reply(sr.info, cfg, env.behav, env.subseed, sr.meta) : world.aggr_reply(sr.info, cfg, env.behav, env.subseed, sr.meta);
 	if (env.tamper_bit >= 0 && !bytes.empty()) {
 		size_t bit = (size_t)env.tamper_bit % (bytes.size() * 8);
 		bytes[bit / 8] ^= (char)(1 << (bit % 8));
